@@ -256,6 +256,11 @@ func check(w *world) {
 				matchedAll = matchedAll && m
 				matchedSome = matchedSome || m
 			}
+			if !op.lazy && !unbound && !matchedSome {
+				// a stream that is not the optimistic (lazy) kind was negotiated inside NewStream: the
+				// listener must have accepted the ID, so the open itself had to fail
+				o.Violate("C07/open-succeeded-without-common-protocol/eager", "%s: NewStream negotiated %s although no possible table matches it (%s)", desc, op.proto, states[kmin])
+			}
 			switch {
 			case op.plan.use == useUnused:
 				outcome = path + "-unused:" + string(op.proto)
@@ -306,9 +311,10 @@ func check(w *world) {
 					negotiated = seen // judge the handler by what its own end reports
 				}
 				if negotiated == "" {
-				} else if !anyMatch(states, kmin, kmax, negotiated) {
-					o.Violate("C07/handler-ran-without-common-protocol", "%s: %s answered on a stream bound to %s, which no possible table matches (%s)", desc, in, negotiated, states[kmin])
 				} else if ok, class, detail := legit(states, kmin, kmax, in, negotiated); !ok {
+					if class != "C07/removed-handler-ran" && !anyMatch(states, kmin, kmax, negotiated) {
+						class = "C07/handler-ran-without-common-protocol"
+					}
 					o.Violate(class, "%s: %s", desc, detail)
 				}
 				verified++
@@ -411,6 +417,9 @@ func check(w *world) {
 			continue
 		}
 		op := cand[0]
+		if op.proto == "" {
+			continue // already reported as stream-not-bound
+		}
 		if iv.seen != op.proto {
 			o.Violate("C07/ends-disagree/unused", "open#%d (unused) reports %q, the handler's stream reports %q", op.idx, op.proto, iv.seen)
 		}
